@@ -79,6 +79,7 @@ type Sim struct {
 	reloadsRej    int
 	cache         *stepCache
 	graveyard     map[string]*QSpec
+	ghosts        map[string]*QSpec // last configured form of queues that left the configuration but still exist (draining)
 	gang          map[string]*gangWatch
 	groupLeak     map[string]Res
 	mrng          *Rng
